@@ -234,6 +234,14 @@ var poolCalls = []poolCall{
 		}
 		return fmt.Sprintf("%s|%s|%d", a, b, len(rb))
 	}},
+	{"safenil-field", func() string {
+		type ev struct {
+			N int
+			V interface{}
+			W interface{}
+		}
+		return string(redact.Sprintf("event %v|%+v", ev{3, redact.Safe(nil), redact.Unsafe(nil)}, &ev{4, redact.Unsafe(nil), redact.Safe(nil)}))
+	}},
 	{"markers", func() string { return string(redact.Sprintf("%s %v", "a‹b›\n", []byte("x›"))) }},
 }
 
@@ -408,9 +416,14 @@ func poolHistory(args []string) {
 	// that happen to run before it
 	for _, a := range poolCalls {
 		for _, b := range poolCalls {
-			guardCall(a.fn)
+			ra := guardCall(a.fn)
+			copyA := string(append([]byte(nil), ra...))
 			got := guardCall(b.fn)
 			rep.AddEval(1)
+			if ra != copyA {
+				rep.Violate("pool:history:result-mutated", fmt.Sprintf("the string returned by %s changed when %s ran afterwards: %q -> %q", a.name, b.name, digest(copyA), digest(ra)),
+					poolCase{"pool-history", []string{a.name}, b.name})
+			}
 			if got != expected[b.name] || absoluteFailure(got) {
 				rep.Violate("pool:history:"+b.name, fmt.Sprintf("right after %s the call %s returns %q, a fresh process %q", a.name, b.name, digest(got), digest(expected[b.name])),
 					poolCase{"pool-history", []string{a.name}, b.name})
